@@ -172,6 +172,16 @@ impl_dyn_cipher!(c2_chacha::XChaCha20);
 
 pub fn new_cipher(name: &str, key: &[u8; 32], nonce: &[u8]) -> Box<dyn DynCipher> {
     use cipher::generic_array::GenericArray as GA;
+    // key and nonce are handed over from seeded byte offsets inside a larger buffer (as if cut
+    // out of a packet), so their addresses are not word-aligned in general
+    #[repr(align(16))]
+    struct Al([u8; 96]);
+    let mut b = Al([0; 96]);
+    let (ko, no) = ((key[31] & 7) as usize, 48 + (key[30] & 7) as usize);
+    b.0[ko..ko + 32].copy_from_slice(key);
+    b.0[no..no + nonce.len()].copy_from_slice(nonce);
+    let key: &[u8; 32] = (&b.0[ko..ko + 32]).try_into().unwrap();
+    let nonce = &b.0[no..no + nonce.len()];
     // half of the instances (chosen by the key material) are built through new_from_slices
     if key[0] & 1 == 1 {
         macro_rules! nfs {
@@ -220,6 +230,9 @@ pub trait DynHash {
     fn finalize_into_slice(&mut self, out: &mut [u8]);
     fn reset(&mut self);
     fn box_clone(&self) -> Box<dyn DynHash>;
+    /// `Clone::clone_from` onto a live instance of the same type
+    fn clone_from_dyn(&mut self, src: &dyn DynHash);
+    fn as_any(&self) -> &dyn core::any::Any;
     fn counter(&self) -> u128;
     fn set_counter(&mut self, v: u128);
 }
@@ -253,6 +266,13 @@ macro_rules! impl_dyn_hash {
             }
             fn box_clone(&self) -> Box<dyn DynHash> {
                 Box::new(self.clone())
+            }
+            fn clone_from_dyn(&mut self, src: &dyn DynHash) {
+                let src = src.as_any().downcast_ref::<$t>().expect("clone_from between instances of one type");
+                Clone::clone_from(self, src)
+            }
+            fn as_any(&self) -> &dyn core::any::Any {
+                self
             }
             fn counter(&self) -> u128 {
                 self.verif_counter()
